@@ -144,7 +144,8 @@ def run_check(prop, tier):
         prop, tier, seed, nruns, wl_name))
     t0 = time.time()
     results, wall, timed_out = runner.run_batch(
-        prop, wl_name, nruns, seed, params=params, wall_cap=wall_cap)
+        prop, wl_name, nruns, seed, params=params, wall_cap=wall_cap,
+        start_index=int(os.environ.get("XSIM_START") or 0))
     herr = [r for r in results if r["harness_error"]]
     if herr:
         say("HARNESS-ERROR in run {} (seed {}):\n{}".format(
